@@ -142,6 +142,22 @@ var c06BodyTpls = func() []c06BodyTpl {
 		Spec: func() hcldec.Spec {
 			return &hcldec.BlockSpec{TypeName: "blk", Nested: &hcldec.BlockTupleSpec{TypeName: "inner", Nested: hcldec.ObjectSpec{}}}
 		}, A: strs("x"), B: strs("y"), Dyn: true})
+	// generated and static blocks of one type that disagree on the type of an
+	// argument of no particular type: the collection specs convert every element
+	for _, kind := range []string{"list", "set"} {
+		kind := kind
+		nums := func(n int64) func() cty.Value {
+			return func() cty.Value { return cty.ListVal([]cty.Value{cty.NumberIntVal(n)}) }
+		}
+		out = append(out, c06BodyTpl{Name: "dyn-foreach-element-type-unification/" + kind, Src: "blk {\n  b {\n    x = \"static\"\n  }\n}\ndynamic \"blk\" {\n  for_each = k\n  content {\n    b {\n      x = blk.value\n    }\n  }\n}\n",
+			Spec: func() hcldec.Spec {
+				nested := hcldec.ObjectSpec{"b": &hcldec.BlockSpec{TypeName: "b", Nested: hcldec.ObjectSpec{"x": &hcldec.AttrSpec{Name: "x", Type: cty.DynamicPseudoType}}}}
+				if kind == "set" {
+					return &hcldec.BlockSetSpec{TypeName: "blk", Nested: nested}
+				}
+				return &hcldec.BlockListSpec{TypeName: "blk", Nested: nested}
+			}, A: nums(1), B: nums(2), Dyn: true})
+	}
 	// a default that replaces a marked null
 	out = append(out, c06BodyTpl{Name: "attr-default-for-marked-null", Src: "a = k\n", Spec: func() hcldec.Spec {
 		return hcldec.ObjectSpec{"a": &hcldec.DefaultSpec{Primary: &hcldec.AttrSpec{Name: "a", Type: cty.String}, Default: &hcldec.LiteralSpec{Value: cty.StringVal("dflt")}}}
